@@ -84,6 +84,21 @@ def impl_init():
     _rec = (seed, record)
 
 
+def related(trajs, lag, call):
+    import numpy as np
+    if len(trajs) >= 2:
+        other = [np.concatenate(trajs)]
+    elif len(trajs[0]) >= 4:
+        h = len(trajs[0]) // 2
+        other = [trajs[0][:h].copy(), trajs[0][h:].copy()]
+    else:
+        return
+    try:
+        call(other)
+    except Exception:  # noqa
+        pass
+
+
 class _Stub:
     def __init__(self, us):
         self.us = list(us)
@@ -109,6 +124,9 @@ def impl(case):
         trajs = [np.array(t) for t in G.expand(case)]
         st = mh.StateTraj(trajs)
         out['states'] = [int(s) for s in st.states]
+        # history: the same frames cut differently (joined into one trajectory, or the first one cut in
+        # two) are sampled FIRST; nothing of that call may survive into the calls on `trajs`
+        related(trajs, case['lag'], lambda d: ts.propagate_MCMC(d, case['lag'], 3))
         try:
             cm, perm = ts._get_cummat(trajs, case['lag'])
         except (AttributeError, TypeError) as exc:
